@@ -395,6 +395,15 @@ def j2kTail (htj2k : Bool) (ts : List TilePart) : Outcome (List Byte) :=
   let tp := writeTileParts ts
   (writeTLM htj2k tp).map fun tlm => tlm ++ tp ++ be16 MarkerEOC.toNat
 
+/-- the first loop of `writeHTJ2KTileParts`: `parts[packet.ResolutionLevel]` collects `Header ++ Body` of every packet of
+    that resolution, in packet order; a resolution outside `0 .. NumLevels` is the `fmt.Errorf` return.
+    A packet is (ResolutionLevel, Header, Body). -/
+def htPartition (numLevels : Int) (packets : List (Int × List Byte × List Byte)) : Outcome (List (List Byte)) :=
+  let partCount := numLevels + 1
+  if packets.any (fun p => p.1 < 0 || p.1 ≥ partCount) then .err
+  else .ok ((List.range partCount.toNat).map fun (r : Nat) =>
+    (packets.filter fun p => p.1 = (r : Int)).flatMap fun p => p.2.1 ++ p.2.2)
+
 /-- the whole codestream -/
 def j2kStream (p : J2kParams) (info : QcdInfo) (ts : List TilePart) : Outcome (List Byte) :=
   (j2kTail p.htj2k ts).map fun tail => j2kMainHeader p info ++ tail
